@@ -24,7 +24,8 @@ impl<const A: u64, const C: u64> LinearCongruentialGenerator64<A, C> {
 
     pub fn next_raw(&mut self) -> u64 {
         self.state = self.state.wrapping_mul(A).wrapping_add(C);
-        self.state
+        // the low k bits of an LCG state have period 2^k: fold the high half into the output
+        self.state ^ (self.state >> 32)
     }
 }
 
